@@ -12,6 +12,7 @@ import OsacaVerif.Gen.IsaDb_aarch64
       kernel = L[ L[ mnemonic | N , L[ operand … ] ] … ],
       operand = L[ canon (as harness/c07synth.canon_operand), key, value, offset, postvalue ]
         value / postvalue: R<int>; | N | S… (anything else)     offset: N | R<int>; | "n" | "?" | "x"
+        postvalue "a": `post_indexed` is a dict WITHOUT "value" (post-index by a register / a symbol)
       reply: one token per instruction:  src;dst;srcdst;ld;st;changes;changes_postindexed
   rolesdbdump <isa> <forms:Y>   roles / hidden operands / idiom flag / operation class of every loaded entry
   rolesdbcmp  <isa> <forms:Y>   is the generated `Gen.isaDb…` the same database as `loadDb forms`?
@@ -38,6 +39,7 @@ def b01 (b : Bool) : String := if b then "1" else "0"
 def valOfY : Y → Val
   | .num q => if q.den == 1 then .int q.num else .other
   | .null => .none
+  | .str [97] => .absent          -- "a": a `post_indexed` dictionary without the key "value"
   | _ => .other
 
 def offOfY : Y → MOff
